@@ -155,9 +155,30 @@ def gen_a(seed):
         while fname in files:
             fname = "x" + fname
         files[fname] = "\n".join(L) + "\n"
+    chain = rng.random() < 0.4
+    if chain:
+        # A itself is documented against an externalised project A0 and extends one of its types: entities that A only imports
+        # are not A's to export, and A's description must stay loadable
+        t = T()
+        mt0 = T()
+        L0 = ["module " + mods[0].name + "_ext", f"!! doc {mt0}", f"use a0mod{sx}", "implicit none", f"type, extends(a0t{sx}) :: at_chain{sx}", f"!! doc {t}", "integer :: own_c", f"end type at_chain{sx}",
+              "end module " + mods[0].name + "_ext"]
+        me = Ent("A", mods[0].name + "_ext", "module", mods[0].name + "_ext", "public", mt0)
+        mods.append(me)
+        ents.append(me)
+        # the default-public module re-exports what it imports from A0
+        ents.append(Ent("A", me.name, "subroutine", "a0impl", "public", None))
+        ents.append(Ent("A", me.name, "type", f"a0t{sx}", "public", None))
+        ents.append(Ent("A", me.name, "type", f"at_chain{sx}", "public", t))
+        files["a_chain.f90"] = "\n".join(L0) + "\n"
     # a program and an external procedure: not part of the exported description
     files["aprog.f90"] = f"program aprog{sx}\n!! doc {T()}\nend program aprog{sx}\nsubroutine aloose{sx}()\n!! doc {T()}\nend subroutine aloose{sx}\n"
-    return {"files": files, "ents": ents, "modules": mods, "sx": sx}
+    a0 = None
+    if chain:
+        a0 = {f"a0{sx}.f90": "\n".join([f"module a0mod{sx}", "!! doc", "implicit none", f"type :: a0t{sx}", "!! doc", "integer :: inherited_c", "!! doc", "contains",
+                                         "procedure :: a0bound => a0impl", "!! doc", f"end type a0t{sx}", "contains", "subroutine a0impl(self)", f"class(a0t{sx}) :: self", "end subroutine a0impl",
+                                         f"end module a0mod{sx}"]) + "\n"}
+    return {"files": files, "ents": ents, "modules": mods, "sx": sx, "a0": a0}
 
 
 def gen_b(seed, A):
@@ -372,6 +393,9 @@ def resolve(url, page_rel, b_out, a_out, remote_prefix):
     if remote_prefix and u.startswith(remote_prefix):
         path, _, frag = u[len(remote_prefix):].partition("#")
         return "A", posixpath.normpath(urllib.parse.unquote(path)), urllib.parse.unquote(frag)
+    if remote_prefix and u.startswith(remote_prefix[:remote_prefix.index("/", 8) + 1]):
+        # on the server that publishes A, but not below A's documentation
+        return "A", "<outside the published directory>/" + u.split("/", 3)[-1], ""
     if re.match(r"^[a-zA-Z][a-zA-Z0-9+.-]*:", u) or u.startswith("//"):
         return "web", u, ""
     path, _, frag = u.partition("#")
@@ -421,6 +445,14 @@ def case(arg):
             extra["a_first.f90"] = "module a_first_mod\ncontains\n" + "".join(f"subroutine {n}()\nend subroutine {n}\n" for n in SHARED) + "end module a_first_mod\n"
             write_proj(a_root, extra, a_opts)
             site.run_cli(a_root)
+        if A["a0"]:
+            a0_root = os.path.join(root, "p0")
+            write_proj(a0_root, A["a0"], {"project": "ProjA0", "externalize": True})
+            r0 = site.run_cli(a0_root)
+            if r0["rc"] != 0:
+                return {"inconclusive": "project A0 failed: " + (r0["stderr"] or r0["stdout"])[-300:], "viol": []}
+            a_opts["external"] = {"proj0": os.path.relpath(os.path.join(a0_root, "doc"), a_root)}
+            cfg["chain_of_three"] = True
         write_proj(a_root, A["files"], a_opts)
         ra = site.run_cli(a_root)
         if ra["rc"] != 0:
@@ -459,9 +491,15 @@ def case(arg):
         # ---- project B
         remote_prefix = None
         if mode == "http":
-            srv, port = serve(a_out)
-            ext = f"http://127.0.0.1:{port}/"
-            remote_prefix = ext
+            url_form = rng.choice(["root_slash", "root", "path_slash", "path"])  # host only or with a path component; with or without trailing slash
+            cfg["url_form"] = url_form
+            if url_form.startswith("root"):
+                srv, port = serve(a_out)
+                remote_prefix = f"http://127.0.0.1:{port}/"
+            else:
+                srv, port = serve(os.path.dirname(a_root))
+                remote_prefix = f"http://127.0.0.1:{port}/{os.path.basename(a_root)}/doc/"
+            ext = remote_prefix if url_form.endswith("slash") else remote_prefix.rstrip("/")
         elif mode == "absolute_path":
             ext = a_out
         else:
